@@ -190,6 +190,7 @@ fn eval_union_expr(
         };
     }
 
+    nodes.sort_by_cached_key(|v| v.order());
     let mut set = HashSet::new();
     nodes.retain(|v| set.insert(v.order()));
 
